@@ -123,6 +123,11 @@ fn main() {
             }
             emit(&args, stats_json(&out).set("cmd", J::s(&args.cmd)));
         }
+        "clone_refusal" => {
+            let mut out = engine::RunOut::new();
+            scale::run_clone_refusal(args.u64("case", 0), &mut out);
+            emit(&args, stats_json(&out).set("cmd", J::s("clone_refusal")));
+        }
         "noop" => { println!("ok"); }
         "selfcheck" => {
             // used by the driver to build (and smoke-test) a mode
